@@ -182,13 +182,20 @@ pub fn c08_q_text_custom_spacing() {
 /// complete draws of degenerate objects (zero sizes, coincident vertices, empty polyline, widths
 /// larger than the shape, dotted strokes) on the native target: concrete objects, symbolic style
 macro_rules! c08_degenerate {
-    ($name:ident, $style:expr) => {
+    ($name:ident, $style:expr) => { c08_degenerate!($name, $style, 7); };
+    ($name:ident, $style:expr, $grp:expr) => {
 #[cfg_attr(kani, kani::proof, kani::unwind(40))]
 pub fn $name() {
     let st = $style;
     note!("style", st);
     let mut t = NProbe::<Gray8>::new(point(4), Rectangle::new(Point::new(-50, -50), Size::new(100, 100)));
     let p = Point::new(2, -1);
+    if $grp & 1 != 0 {
+    let empty: [u8; 0] = [];
+    let raw = ImageRaw::<Gray8>::new(&empty, Size::zero()).unwrap();
+    Image::new(&raw, p).draw(&mut t).unwrap();
+    let raw2 = ImageRaw::<Gray8>::new(&empty, Size::new(0, 7)).unwrap();
+    Image::new(&raw2, p).draw(&mut t).unwrap();
     Rectangle::new(p, Size::zero()).into_styled(st).draw(&mut t).unwrap();
     Rectangle::new(p, Size::new(3, 0)).into_styled(st).draw(&mut t).unwrap();
     Circle::new(p, 0).into_styled(st).draw(&mut t).unwrap();
@@ -197,19 +204,19 @@ pub fn $name() {
     Ellipse::new(p, Size::new(1, 1)).into_styled(st).draw(&mut t).unwrap();
     RoundedRectangle::with_equal_corners(Rectangle::new(p, Size::new(0, 0)), Size::new(3, 3)).into_styled(st).draw(&mut t).unwrap();
     RoundedRectangle::with_equal_corners(Rectangle::new(p, Size::new(2, 1)), Size::new(5, 5)).into_styled(st).draw(&mut t).unwrap();
+    }
+    if $grp & 2 != 0 {
     Triangle::new(p, p, p).into_styled(st).draw(&mut t).unwrap();
     Triangle::new(p, p, Point::new(4, 1)).into_styled(st).draw(&mut t).unwrap();
     Line::new(p, p).into_styled(st).draw(&mut t).unwrap();
     Polyline::new(&[]).into_styled(st).draw(&mut t).unwrap();
     Polyline::new(&[p]).into_styled(st).draw(&mut t).unwrap();
     Polyline::new(&[p, p]).into_styled(st).draw(&mut t).unwrap();
+    }
+    if $grp & 4 != 0 {
     Arc::new(p, 0, Angle::from_degrees(0.0), Angle::from_degrees(90.0)).into_styled(st).draw(&mut t).unwrap();
     Sector::new(p, 1, Angle::from_degrees(0.0), Angle::from_degrees(0.0)).into_styled(st).draw(&mut t).unwrap();
-    let empty: [u8; 0] = [];
-    let raw = ImageRaw::<Gray8>::new(&empty, Size::zero()).unwrap();
-    Image::new(&raw, p).draw(&mut t).unwrap();
-    let raw2 = ImageRaw::<Gray8>::new(&empty, Size::new(0, 7)).unwrap();
-    Image::new(&raw2, p).draw(&mut t).unwrap();
+    }
     reach!(true, "reach.end");
 }
     };
@@ -217,12 +224,20 @@ pub fn $name() {
 c08_degenerate!(c08_q_degenerate_w0_fill, style(0, StrokeAlignment::Center, Some(Gray8::new(1)), None));
 c08_degenerate!(c08_q_degenerate_w1_both, style(1, StrokeAlignment::Inside, Some(Gray8::new(1)), Some(Gray8::new(2))));
 #[cfg(feature = "thorough")]
-c08_degenerate!(c08_t_degenerate_w2_stroke, style(2, StrokeAlignment::Center, None, Some(Gray8::new(2))));
+c08_degenerate!(c08_t_degenerate_w2_stroke_boxes, style(2, StrokeAlignment::Center, None, Some(Gray8::new(2))), 1);
 #[cfg(feature = "thorough")]
-c08_degenerate!(c08_t_degenerate_w5_stroke, style(5, StrokeAlignment::Center, None, Some(Gray8::new(2))));
+c08_degenerate!(c08_t_degenerate_w2_stroke_lines, style(2, StrokeAlignment::Center, None, Some(Gray8::new(2))), 2);
 #[cfg(feature = "thorough")]
-c08_degenerate!(c08_t_degenerate_w2_outside, style(2, StrokeAlignment::Outside, Some(Gray8::new(1)), Some(Gray8::new(2))));
+c08_degenerate!(c08_t_degenerate_w5_stroke_boxes, style(5, StrokeAlignment::Center, None, Some(Gray8::new(2))), 1);
+#[cfg(feature = "thorough")]
+c08_degenerate!(c08_t_degenerate_w5_stroke_lines, style(5, StrokeAlignment::Center, None, Some(Gray8::new(2))), 2);
+#[cfg(feature = "thorough")]
+c08_degenerate!(c08_t_degenerate_w2_outside_boxes, style(2, StrokeAlignment::Outside, Some(Gray8::new(1)), Some(Gray8::new(2))), 1);
+#[cfg(feature = "thorough")]
+c08_degenerate!(c08_t_degenerate_w2_outside_lines, style(2, StrokeAlignment::Outside, Some(Gray8::new(1)), Some(Gray8::new(2))), 2);
 
+// (zero-sized arcs/sectors with strokes wider than 1: symbolic execution of the thick arc iterators ran out
+// of memory (16 GB) -> only widths 0 and 1 above)
 /// dotted strokes do not panic (the property set is about solid strokes; totality includes dotted)
 #[cfg_attr(kani, kani::proof, kani::unwind(40))]
 pub fn c08_q_dotted() {
